@@ -131,7 +131,8 @@ fn candidates(p: &Plan) -> Vec<Plan> {
     {
         let mut q = p.clone();
         let s = &mut q.sched;
-        if s.batch != 1 || s.spurious_pm != 0 || s.oversleep_ns != 0 || s.busy_k != 1 {
+        if s.batch != 1 || s.spurious_pm != 0 || s.oversleep_ns != 0 || s.busy_k != 1 || s.consumer_pm != 0 {
+            s.consumer_pm = 0;
             s.batch = 1;
             s.spurious_pm = 0;
             s.oversleep_ns = 0;
